@@ -71,6 +71,7 @@ type Param struct {
 	Kind byte // 'n' integer, 'c' character, 'v', '#', 0 omitted
 	N    int
 	C    rune
+	Plus bool // an integer written with an explicit + sign
 }
 
 // Dir is a literal run (Ch == 0) or a directive.
@@ -265,7 +266,7 @@ func (p *parser) param() (Param, bool) {
 		if _, err := fmt.Sscanf(txt, "%d", &n); err != nil || 9 < len(txt) {
 			fail("unspec", "parameter %s", txt)
 		}
-		return Param{Kind: 'n', N: n}, true
+		return Param{Kind: 'n', N: n, Plus: c == '+'}, true
 	}
 	return Param{}, false
 }
